@@ -319,6 +319,8 @@ type layoutContext struct {
 	brokenOrder         int
 	// for each page already made, the content of brokenOutOfFlow at its end
 	brokenOutOfFlowAfter [][]brokenBox
+	// for each page already made, the content of reportedFootnotes at its end
+	reportedFootnotesAfter [][]Box
 
 	footnotes            []Box
 	currentPageFootnotes []Box
